@@ -69,7 +69,7 @@ func selChain(e ast.Expr) []string {
 
 var sharedMaps = map[string]bool{"packages": true, "Schemas": true, "Packages": true}
 
-// package-level variables of the file set being scanned (set by scanPackageVars)
+// package-level variables: the census of state.go reports them; nothing is registered here
 var (
 	pkgVars     = map[string]bool{}
 	pkgVarSpecs = map[*ast.ValueSpec]bool{}
@@ -97,68 +97,6 @@ func typeString(e ast.Expr) string {
 		return "&" + typeString(t.X)
 	}
 	return strings.Join(selChain(e), ".")
-}
-
-// scanPackage lists the package-level variables of a directory (name:type-or-initialiser, blank
-// identifiers skipped) and, per function, the writes to them.
-func scanPackage(repo, dir string) (vars []string, writers []string, err error) {
-	matches, err := filepath.Glob(filepath.Join(repo, dir, "*.go"))
-	if err != nil {
-		return nil, nil, err
-	}
-	sort.Strings(matches)
-	var files []*ast.File
-	pkgVars = map[string]bool{}
-	pkgVarSpecs = map[*ast.ValueSpec]bool{}
-	for _, m := range matches {
-		if strings.HasSuffix(m, "_test.go") || strings.Contains(filepath.Base(m), "verifhook") {
-			continue
-		}
-		_, f, err := gen.ParseFile(m)
-		if err != nil {
-			return nil, nil, err
-		}
-		files = append(files, f)
-		for _, d := range f.Decls {
-			gd, ok := d.(*ast.GenDecl)
-			if !ok || gd.Tok != token.VAR {
-				continue
-			}
-			for _, sp := range gd.Specs {
-				vs := sp.(*ast.ValueSpec)
-				for i, n := range vs.Names {
-					if n.Name == "_" {
-						continue
-					}
-					ty := typeString(vs.Type)
-					if ty == "" && i < len(vs.Values) {
-						ty = typeString(vs.Values[i])
-					}
-					vars = append(vars, n.Name+":"+ty)
-					pkgVars[n.Name] = true
-					pkgVarSpecs[vs] = true
-				}
-			}
-		}
-	}
-	for _, f := range files {
-		for _, d := range f.Decls {
-			fd, ok := d.(*ast.FuncDecl)
-			if !ok {
-				continue
-			}
-			for _, t := range tokens(fd, map[string]bool{}) {
-				if strings.HasPrefix(t, "setvar:") || (strings.HasPrefix(t, "write:") && pkgVars[strings.TrimPrefix(t, "write:")]) {
-					writers = append(writers, fd.Name.Name+":"+t)
-				}
-			}
-		}
-	}
-	sort.Strings(vars)
-	sort.Strings(writers)
-	pkgVars = map[string]bool{}
-	pkgVarSpecs = map[*ast.ValueSpec]bool{}
-	return vars, writers, nil
 }
 
 func structFields(f *ast.File, name string) []string {
@@ -427,71 +365,7 @@ func genConc(repo string) (string, error) {
 			fns = append(fns, fn{name: fd.Name.Name, exported: ast.IsExported(fd.Name.Name), toks: tokens(fd, hm)})
 		}
 		fmt.Fprintf(&sb, "(* %s: fields and methods of *%s *)\n", src.path, src.typ)
-		fmt.Fprintf(&sb, "Definition %s_fields : list string := %s.\n", strings.TrimSuffix(src.def, "_methods"), coqList(structFields(h, src.typ)))
 		emit(src.def, fns)
-		var vars []string
-		for _, d := range h.Decls {
-			gd, ok := d.(*ast.GenDecl)
-			if !ok || gd.Tok != token.VAR {
-				continue
-			}
-			for _, sp := range gd.Specs {
-				for _, n := range sp.(*ast.ValueSpec).Names {
-					if n.Name != "_" {
-						vars = append(vars, n.Name)
-					}
-				}
-			}
-		}
-		sort.Strings(vars)
-		fmt.Fprintf(&sb, "Definition %s_package_vars : list string := %s.\n", strings.TrimSuffix(src.def, "_methods"), coqList(vars))
-	}
-
-	// ---- package-level variables of the packages on the encode/decode path, and who writes them
-	for _, pk := range []struct{ def, dir string }{
-		{"codec_pkg", "internal/codec"}, {"reflect_pkg", "lib/j5reflect"}, {"schema_pkg", "lib/j5schema"},
-	} {
-		vars, writers, err := scanPackage(repo, pk.dir)
-		if err != nil {
-			return "", err
-		}
-		fmt.Fprintf(&sb, "(* %s: package-level variables (name:type or initialiser) and the functions that assign to them *)\n", pk.dir)
-		fmt.Fprintf(&sb, "Definition %s_vars : list string := %s.\n", pk.def, coqList(vars))
-		fmt.Fprintf(&sb, "Definition %s_var_writers : list string := %s.\n", pk.def, coqList(writers))
-	}
-
-	// ---- lib/j5schema: every function that writes a schema map or a To field (file:function:token)
-	{
-		matches, err := filepath.Glob(filepath.Join(repo, "lib/j5schema", "*.go"))
-		if err != nil {
-			return "", err
-		}
-		sort.Strings(matches)
-		var writers []string
-		for _, m := range matches {
-			if strings.HasSuffix(m, "_test.go") {
-				continue
-			}
-			_, h, err := gen.ParseFile(m)
-			if err != nil {
-				return "", err
-			}
-			for _, d := range h.Decls {
-				fd, ok := d.(*ast.FuncDecl)
-				if !ok {
-					continue
-				}
-				seen := map[string]bool{}
-				for _, t := range tokens(fd, map[string]bool{}) {
-					if (strings.HasPrefix(t, "write:") || strings.HasPrefix(t, "delete:")) && !seen[t] {
-						seen[t] = true
-						writers = append(writers, filepath.Base(m)+":"+fd.Name.Name+":"+t)
-					}
-				}
-			}
-		}
-		sort.Strings(writers)
-		fmt.Fprintf(&sb, "(* lib/j5schema: every function that writes a schema map or a To field *)\nDefinition schema_writers : list string := %s.\n", coqList(writers))
 	}
 
 	// ---- internal/codec: every function that obtains the root through the reflector
